@@ -282,8 +282,30 @@ class Alg:
         iv = getattr(self, 'inv_of', {})
         for _ in range(limit):
             inv_atoms = self._inv_atoms_in(p)
-            if not inv_atoms or p.is_zero():
+            if p.is_zero():
                 return p
+            if not inv_atoms:
+                # single-atom reciprocals inv(a): multiply through by a^k
+                singles = sorted(a for a in p.atoms() if a.startswith('inv(') and
+                                 a in self.inverse and a not in iv)
+                if not singles:
+                    return p
+                pick = singles[0]
+                base = self.p_atom(self.inverse[pick])
+                k = max(dict(m).get(pick, 0) for m in p.t)
+                pows = {0: self.p_const(1)}
+                for j in range(1, k + 1):
+                    pows[j] = self.p_mul(pows[j - 1], base)
+                groups = {}
+                for m, c in p.t.items():
+                    j = dict(m).get(pick, 0)
+                    rest = tuple((x, q) for x, q in m if x != pick)
+                    groups.setdefault(j, {})[rest] = c
+                out = Poly()
+                for j, t in groups.items():
+                    out = self.p_add(out, self.p_mul(Poly(t), pows[k - j]))
+                p = out
+                continue
             # outermost first: not nested inside another present inv atom
             pick = None
             for a in sorted(inv_atoms):
